@@ -84,6 +84,33 @@ REGISTRY = {
                 "Non-trivial: the failing patch is not the first of the run, or it has several file entries; distinct by (workspace shape, configuration).",
         "floor": floors(("failing-patch-not-first", 100), ("multi-file-failing-patch", 100), ("runs-applying-everything", 100)),
     },
+    "C08": {
+        "level_text": "backup files and applied-patches of real pushes are compared entry by entry with the pre-patch states known by construction, then popped in simulation",
+        "level_note": "trusted: wsgen ground truth; zero-length-vs-absent ambiguity of the quilt backup format is not asserted",
+        "technique": "runtime monitoring: ground-truth oracle over .pc snapshots + simulated pop",
+        "parts": [K.cli_c08],
+        "rule": "series of up to 10 patches on 1-4 files (several patches per file, several entries per file in a patch, creates/deletes/renames/chmod), "
+                "backup always/onfail/never/default x backup-count all/0/1/2/5/100/default x prior applied state x goal -a/N x threads 1/4, incl. failing series. "
+                "Non-trivial: backups expected and some file is touched by >= 2 applied patches inside the window.",
+        "floor": floors(("runs-with-backups-expected", 200), ("runs-with-no-backups-expected", 200), ("file-touched-by>=2-patches-in-window", 50), ("rename-in-window", 20), ("prior-applied-state", 50)),
+    },
+    "C09": {
+        "level_text": "differential: one invocation to a goal vs a random cut sequence of invocations to the same goal on a copy; then the final invocation is repeated",
+        "level_note": "trusted: snapshots; 'push N' repeated is not an idempotence case (it legitimately applies N more)",
+        "technique": "runtime monitoring: differential oracle over tree/.rej/applied-patches snapshots of split vs single pushes",
+        "parts": [K.cli_c09],
+        "rule": "random series (delete-then-recreate, create-then-modify, rename chains, mode changes, failing patches); goal g; single = push g / push <name> / push -a; "
+                "split = random sequence of push / push n / push <name> / push -a with threads 1/2/4. Non-trivial: >= 2 invocations of the split applied something.",
+        "floor": floors(("splits-with>=2-applying-invocations", 200), ("idempotence-checked", 50), ("failure-resumption-checked", 50)),
+    },
+    "C10": {
+        "level_text": "real --dry-run executions under strace: full recursive snapshot (bytes, mode, inode, nlink, mtime) before/after, audit of every write-class syscall, and comparison of exit status / failing patch with a real run on a copy",
+        "level_note": "trusted: strace -f decoding (lib/stracelog.py); atime is not compared",
+        "technique": "runtime monitoring: snapshot invariant + syscall-log audit + differential prediction oracle",
+        "parts": [K.cli_c10],
+        "rule": "C05-style workspaces incl. failing series x threads 1/4 x backup modes x -q/default/-v x prior applied state x goal. Non-trivial: the corresponding real run changes the working directory.",
+        "floor": floors(("real-run-writes-something", 200), ("dry-runs:exit=1", 100), ("dry-runs:exit=0", 100), ("syscalls-audited", 10000)),
+    },
     "C11": {
         "level_text": 'parser and follow-up application run on bounded-exhaustive line sequences, numeric extremes, mutants; panics caught, allocations counted, aborts/hangs attributed per case',
         "level_note": 'trusted: counting GlobalAlloc wrapper; 20 s isolated re-run decides non-termination',
@@ -106,6 +133,35 @@ REGISTRY = {
                 "parse must give the same file patches (kind, names, rename, modes, hashes, hunk lines, start lines) and write must be a fixed "
                 "point. Non-trivial: the input parses into >= 1 file patch; distinct by hash of the input.",
         "floor": floors(("rename", 100), ("modes", 100), ("special-name", 100), ("empty-side", 100), ("no-newline", 100), ("create", 100), ("delete", 100)),
+    },
+    "C13": {
+        "level_text": "reject files of real failing pushes are read back (own hunk reader) and compared with the hunks that fail by construction",
+        "level_note": "trusted: wsgen poison construction (a removed/context line replaced by a token that occurs nowhere cannot match at fuzz 0); lib/udiff.read_hunks",
+        "technique": "runtime monitoring: ground-truth oracle over *.rej snapshots",
+        "parts": [K.cli_c13],
+        "rule": "failing patches with failures in a random subset of their files and hunks (poisoned hunks, missing file, create-over-existing, delete-mismatch, "
+                "misordered), files in sub-directories / without extension / several dots / in a directory that does not exist, reversed patches, threads 1/2/4/16. "
+                "Non-trivial: the failing patch has >= 2 file entries or a file with both applying and failing hunks.",
+        "floor": floors(("reject-files-verified", 500), ("file-with-applying-and-failing-hunks", 50), ("several-files-rejected", 50), ("reject-legitimately-skipped-(no-directory)", 20)),
+    },
+    "C15": {
+        "level_text": "real pushes under strace on a workspace whose files are hard-linked into a twin tree; inode identity, twin content and every syscall on bystander files are checked",
+        "level_note": "trusted: strace decoding; os.link twin",
+        "technique": "runtime monitoring: hard-link twin invariant + syscall-log audit",
+        "parts": [K.cli_c15],
+        "rule": "modify/truncate/delete/rename/mode change, failing series (files re-saved after rollback), both loaders, threads 1/4; three bystander files that no patch names. "
+                "Non-trivial: at least one file was replaced.",
+        "floor": floors(("files-replaced", 500), ("bystanders-verified", 1000), ("failing-series-(files-resaved-after-rollback)", 50)),
+    },
+    "C19": {
+        "level_text": "real pushes under strace inside a sentinel directory with decoy files at the places escaping names point to; sentinel snapshot, syscall audit, exit status and clean-failure oracle",
+        "level_note": "trusted: strace decoding; symlinks inside the tree are out of scope (the statement is about names)",
+        "technique": "runtime monitoring: sentinel snapshot + syscall-log audit",
+        "parts": [K.cli_c19],
+        "rule": "10 escaping spellings (absolute, '..' surviving -p0/-p1/-p2, inner and trailing '..', './..') x position (---, +++, both, diff --git line, rename source/target) x "
+                "modify/create/delete of decoys x quoted with octal escapes or not x threads 1/4 x position of the offending patch in a random series. "
+                "Non-trivial: all of them (every name resolves outside the workspace); distinct by (spelling, position, action, quoting, threads, series).",
+        "floor": floors(("held-runs", 500), ("syscalls-audited", 10000)),
     },
     "C20": {
         "level_text": 'metamorphic: same case executed under 8 fuzz limits, reports and content compared',
